@@ -254,7 +254,8 @@ def main():
                 "streams": ctx.streams,
                 "oracles": ctx.oracles,
                 "input_distribution": ctx.distribution,
-                "translator_ok": tr_ok, "translator_errors": tr_errs, "dump_crosscheck_ok": dump_ok,
+                "translator_ok": tr_ok, "translator_errors": tr_errs, "translator_degraded": parsed.get("degraded", []),
+                "dump_crosscheck_ok": dump_ok,
                 "obligation_failures": ctx.obligation_failures[:5],
                 "tie_failures": len(ctx.tie_failures),
                 "oracle_failures": len(ctx.oracle_failures),
